@@ -396,7 +396,7 @@ func cmdRun(args []string) int {
 	name := args[0]
 	params := map[string]int{}
 	concrete := map[string]uint64{}
-	workers := runtime.NumCPU()
+	workers := workerCount()
 	var maxPaths int64
 	xvalN := 0
 	var xsolvers []string
